@@ -315,6 +315,69 @@ def run(prog):
                      "an `@alias` reference no longer adds the nesting of the alias's action to the current nesting counter and compares "
                      "the sum with a constant: the action of an alias is spliced in as it is, so chains of aliases build action trees of "
                      "unbounded depth (stack overflow in the chord-resolution pass or in do_action)")
+        # 5c: the sum that is compared with the limit is also what raises the recorded maximum (`max.set(max.get().max(sum))`):
+        # recording only the alias's own nesting loses the levels around the reference, so the nesting of an alias that uses
+        # an alias stops growing along the chain and every single use stays under the limit
+        sums = []
+        for b in sorted(f.reachable()):
+            c = _cmp_with_const(f, b)
+            if c is not None:
+                add = _derives_from_call(f, c[1], ("saturating_add", "checked_add", "wrapping_add"))
+                if add is not None and add["args"] and _derives_from_call(f, add["args"][0], ("get",)) is not None:
+                    sums.append(add)
+        okm, nmax = False, 0
+        for bi, t in f.calls():
+            if (callee_name(t) or "").split("::")[-1] != "max" or len(t["args"]) < 2:
+                continue
+            # .. whose result goes into a Cell::set
+            used_in_set = any((callee_name(t2) or "").split("::")[-1] == "set" and len(t2["args"]) > 1 and
+                              _derives_from_call(f, t2["args"][1], ("max",)) is t for _, t2 in f.calls())
+            if not used_in_set:
+                continue
+            nmax += 1
+            src = _derives_from_call(f, t["args"][1], ("saturating_add", "checked_add", "wrapping_add"))
+            if src is not None and any(src is a for a in sums):
+                okm = True
+        res.inst("aliases/recorded-maximum-is-the-sum", where=f.loc, sums=len(sums), max_updates=nmax, ok=okm)
+        res.oblige(okm)
+        if not okm:
+            res.viol("aliases/recorded-maximum-is-the-sum", f.loc,
+                     "at an `@alias` reference the recorded maximum nesting is not raised to the sum (current nesting + the alias's nesting) "
+                     "that was just compared with the limit: the nesting recorded for an alias that refers to another alias leaves out the "
+                     "levels around the reference, so it stops accumulating along a chain of aliases and actions of unbounded depth are "
+                     "accepted (stack overflow in create_key_outputs / do_action)")
+    # 5b: the nesting recorded for an alias is read from the counter that was reset before the alias's action was parsed
+    g5 = prog.fn_opt(KP + "read_alias_name_action_pairs")
+    if g5 is None:
+        res.viol("aliases/recorded-from-reset-counter|anchor", "parser/src/cfg/mod.rs", "read_alias_name_action_pairs not found")
+    else:
+        res.fn(g5)
+        R5 = Resolver(g5)
+        parse_calls = [bi for bi, t in g5.calls() if norm_name(callee_name(t) or "") == KP + "parse_action"]
+        reset = set()
+        for bi, t in g5.calls():
+            if (callee_name(t) or "").split("::")[-1] == "set" and len(t["args"]) > 1 and is_const(t["args"][1]) and \
+                    any(g5.dominates(bi, pc) for pc in parse_calls):
+                r = R5.root(t["args"][0])
+                reset |= {x[2] for x in r[2][-1:]}
+        rec = None
+        for bi, t in g5.calls():
+            if (callee_name(t) or "").split("::")[-1] == "insert" and len(t["args"]) > 2 and (root_desc(g5, t["args"][0]) or "").endswith(".alias_nesting"):
+                d = g5.single_def(t["args"][2]["l"]) if is_place(t["args"][2]) and not proj(t["args"][2]) else None
+                if d and d[2] == "assign" and d[3]["k"] == "agg" and d[3].get("tup") and d[3]["ops"]:
+                    get = _derives_from_call(g5, d[3]["ops"][0], ("get",))
+                    if get is not None and get["args"]:
+                        r = R5.root(get["args"][0])
+                        rec = [x[2] for x in r[2][-1:]]
+        ok5 = bool(rec) and bool(reset) and rec[0] in reset
+        res.inst("aliases/recorded-from-reset-counter", where=g5.loc, recorded_from=rec, reset_before_parse=sorted(reset), ok=ok5)
+        res.oblige(ok5)
+        if not ok5:
+            res.viol("aliases/recorded-from-reset-counter", g5.loc,
+                     "the nesting recorded for an alias is read from %s, but the counter that is reset before the alias's action is parsed "
+                     "(and therefore holds the maximum nesting reached inside it) is %s: every alias is recorded with a stale / zero "
+                     "nesting, references to it add nothing, and chains of aliases nest without bound"
+                     % (rec or "something that is not a counter", sorted(reset) or "none"))
     # ---- 6. size: the tree of actions (aliases counted at every use) is bounded
     counters = []
     for g in prog.fns.values():
